@@ -14,6 +14,10 @@ STORAGE_HARNESS = [
     {"bin": "storage_diff", "model": True, "stateful": True, "name": "storage_diff-sqlite",
      "quick": ["--backend", "sqlite", "--seqs", "50", "--len", "60"], "thorough": ["--backend", "sqlite", "--seqs", "1500", "--len", "80"]},
 ]
+PTR_HARNESS = [
+    {"bin": "ptr_diff", "model": False, "name": "ptr_diff-mem", "quick": ["--backend", "mem", "--hist", "32", "--steps", "30"], "thorough": ["--backend", "mem", "--hist", "640", "--steps", "40"]},
+    {"bin": "ptr_diff", "model": False, "name": "ptr_diff-sqlite", "quick": ["--backend", "sqlite", "--hist", "16", "--steps", "30"], "thorough": ["--backend", "sqlite", "--hist", "320", "--steps", "40"]},
+]
 STORAGE_TRUST = [
     "translator tools/translate/sql_tables.py (ORDER BY clauses, FK cascade edges, restore/snapshot statement plans by regex on rustfmt-formatted source)",
     "modelled, not verified: rusqlite/SQLite statement and transaction semantics, the lru crate (memory backend below its capacity limits), serde_json row encodings; both backends are compared with the contract model on every run",
@@ -62,7 +66,9 @@ REGISTRY = {
     },
     "C09": {"props_file": "Props/C09.v", "gen": ["sql_tables"], "harness": STORAGE_HARNESS, "trusted_base": STORAGE_TRUST, "assumptions": STORAGE_ASSUME},
     "C10": {"props_file": "Props/C10.v", "gen": ["sql_tables"], "harness": STORAGE_HARNESS, "trusted_base": STORAGE_TRUST, "assumptions": STORAGE_ASSUME},
-    "C18": {"props_file": "Props/C18.v", "gen": ["sql_tables"], "harness": STORAGE_HARNESS, "trusted_base": STORAGE_TRUST, "assumptions": STORAGE_ASSUME},
+    "C18": {"props_file": "Props/C18.v", "gen": ["sql_tables"], "harness": STORAGE_HARNESS + PTR_HARNESS, "trusted_base": STORAGE_TRUST + [
+                "ptr_diff is an oracle-only harness (no model run: processed_at is the implementation's wall clock): it evaluates the conclusion of C18_pointer_is_head and the strict order of the listing on the real clients' stored state after every step"],
+            "assumptions": STORAGE_ASSUME + ["engine level (ptr_diff): 3 members, 2 admins, one group, created_at from two values, at most two 1.05 s pauses per history"]},
     "C13": {
         "props_file": "Props/C13.v",
         "gen": ["keyring_prog"],
